@@ -40,6 +40,18 @@ coq/Properties_C07.vos coq/Properties_C07.vok coq/Properties_C07.required_vos: c
 coq/Properties_C09.vo coq/Properties_C09.glob coq/Properties_C09.v.beautified coq/Properties_C09.required_vo: coq/Properties_C09.v coq/Util.vo coq/Constants.vo coq/KeyLimit.vo coq/KeyLimitProofs.vo
 coq/Properties_C09.vio: coq/Properties_C09.v coq/Util.vio coq/Constants.vio coq/KeyLimit.vio coq/KeyLimitProofs.vio
 coq/Properties_C09.vos coq/Properties_C09.vok coq/Properties_C09.required_vos: coq/Properties_C09.v coq/Util.vos coq/Constants.vos coq/KeyLimit.vos coq/KeyLimitProofs.vos
+coq/Properties_C10.vo coq/Properties_C10.glob coq/Properties_C10.v.beautified coq/Properties_C10.required_vo: coq/Properties_C10.v coq/Constants.vo
+coq/Properties_C10.vio: coq/Properties_C10.v coq/Constants.vio
+coq/Properties_C10.vos coq/Properties_C10.vok coq/Properties_C10.required_vos: coq/Properties_C10.v coq/Constants.vos
+coq/Properties_C15.vo coq/Properties_C15.glob coq/Properties_C15.v.beautified coq/Properties_C15.required_vo: coq/Properties_C15.v coq/Constants.vo
+coq/Properties_C15.vio: coq/Properties_C15.v coq/Constants.vio
+coq/Properties_C15.vos coq/Properties_C15.vok coq/Properties_C15.required_vos: coq/Properties_C15.v coq/Constants.vos
+coq/Properties_C16.vo coq/Properties_C16.glob coq/Properties_C16.v.beautified coq/Properties_C16.required_vo: coq/Properties_C16.v coq/Constants.vo
+coq/Properties_C16.vio: coq/Properties_C16.v coq/Constants.vio
+coq/Properties_C16.vos coq/Properties_C16.vok coq/Properties_C16.required_vos: coq/Properties_C16.v coq/Constants.vos
+coq/Properties_C17.vo coq/Properties_C17.glob coq/Properties_C17.v.beautified coq/Properties_C17.required_vo: coq/Properties_C17.v coq/Constants.vo
+coq/Properties_C17.vio: coq/Properties_C17.v coq/Constants.vio
+coq/Properties_C17.vos coq/Properties_C17.vok coq/Properties_C17.required_vos: coq/Properties_C17.v coq/Constants.vos
 coq/Rdb.vo coq/Rdb.glob coq/Rdb.v.beautified coq/Rdb.required_vo: coq/Rdb.v coq/Util.vo coq/Constants.vo
 coq/Rdb.vio: coq/Rdb.v coq/Util.vio coq/Constants.vio
 coq/Rdb.vos coq/Rdb.vok coq/Rdb.required_vos: coq/Rdb.v coq/Util.vos coq/Constants.vos
